@@ -5,14 +5,19 @@ cd "$(dirname "$0")/.."
 export CARGO_NET_OFFLINE=true
 mkdir -p .cache evidence replay
 python3 tools/rs2v.py --repo /repo --out coq/gen || true
+python3 tools/pybind2v.py --repo /repo --out coq/gen 2>/dev/null || python3 tools/pybind2v.py || true
 python3 - <<'PY'
 import sys
 sys.path.insert(0, "tools")
 import vlib, glob, os
 ok, out = vlib.coq_makefile()
 print("coq_makefile", ok, out[-500:])
-targets = [os.path.relpath(p, vlib.COQ)[:-2] + ".vo" for p in sorted(glob.glob(os.path.join(vlib.COQ, "theories", "Props", "*.v")))]
-ok, out = vlib.coq_build(targets, timeout=6000, keep_going=True)
+# every file of the development (Props cones, Legacy witnesses, helper files)
+targets = []
+for sub in ("theories", "gen"):
+    for d, _, fs in os.walk(os.path.join(vlib.COQ, sub)):
+        targets += [os.path.relpath(os.path.join(d, f), vlib.COQ)[:-2] + ".vo" for f in fs if f.endswith(".v")]
+ok, out = vlib.coq_build(sorted(targets), timeout=6000, keep_going=True)
 print("coq build", ok)
 if not ok:
     print(out[-3000:])
